@@ -1833,6 +1833,7 @@ fn file_mutations() -> BoxedStrategy<Mutation> {
         3 => idx().prop_map(|file| Mutation::FileSelfInclude { file }),
         2 => (idx(), idx()).prop_map(|(a, b)| Mutation::FileMutualInclude { a, b }),
         1 => idx().prop_map(|file| Mutation::FileCopyMain { file }),
+        3 => (idx(), hstr(), 0u8..3).prop_map(|(file, name, via)| Mutation::FileRename { file, name, via }),
     ]
     .boxed()
 }
@@ -1894,6 +1895,7 @@ fn csv_mutation() -> BoxedStrategy<Mutation> {
         1 => (idx(), idx()).prop_map(|(a, b)| Mutation::FileSwap { a, b }),
         3 => byte_mutations(),
         2 => rename(),
+        1 => (idx(), hstr(), 0u8..3).prop_map(|(file, name, via)| Mutation::FileRename { file, name, via }),
     ]
     .boxed()
 }
@@ -2090,7 +2092,7 @@ impl Property for C19 {
         "C19"
     }
     fn rule(&self) -> String {
-        "case = a valid document set written from the final store of a generated history (STAM JSON: one document through from_str / from_file, resources and datasets in @include stand-off files, an included sub-store; STAM CSV store; CBOR; plus annotate_from_file, AnnotationBuilder::from_json_str + annotate, AnnotationDataSet::from_file, TextResource::from_file) with 1-3 mutations applied: structured JSON edits on an order-preserving tree (delete / duplicate / reorder / retype a member; numbers 0, -1, 2^31, 2^63, isize::MIN, 2^64, 10^30; strings replaced by ids of other items (dangling, forward and cyclic references, duplicate ids), by temporary ids !A<n> !D<n> !K<n> with n from 0 to 10^30 or relative to the list length, by file names (missing, own file, other file); added members; self- and mutually-including files), CSV cell / row / column edits (unknown and mismatched selector kinds, ';' lists of unequal length, empty cells, huge offsets), CBOR edits on a generic decoded tree (handles and lengths changed, elements deleted / duplicated / swapped / retyped, lying length prefixes) and byte edits (truncate, flip, splice, insert); or a string for Cursor / Type / SelectorKind / DataFormat::try_from, Offset JSON, AnnotationBuilder::from_json_str; or a raw fuzz input. Every case runs in a child process with a counting allocator. Oracle: no panic; the child survives (no stack overflow, no failed allocation); peak live bytes during the load <= 64 MiB + 4096 x input bytes; allocation calls <= 10^6 + 10^3 x input bytes; if the loader returns Ok: the forward references of the store are sound (every handle names a live item, annotation selectors point backwards), then full observation, the model-free C01-C03 consistency battery, to_json_string and five queries complete without panic and find the store consistent. Whatever goes wrong when a store returned by the CBOR reader is used (it validates nothing) is grouped under the signature prefix cbor-unvalidated|. Non-trivial = the mutated documents differ in meaning from their parents and every changed file still parses syntactically in its format (so the loader gets past syntax); for strings: not one of the valid spellings. Distinct = distinct case JSON.".into()
+        "case = a valid document set written from the final store of a generated history (STAM JSON: one document through from_str / from_file, resources and datasets in @include stand-off files, an included sub-store; STAM CSV store; CBOR; plus annotate_from_file, AnnotationBuilder::from_json_str + annotate, AnnotationDataSet::from_file, TextResource::from_file) with 1-3 mutations applied: structured JSON edits on an order-preserving tree (delete / duplicate / reorder / retype a member; numbers 0, -1, 2^31, 2^63, isize::MIN, 2^64, 10^30; strings replaced by ids of other items (dangling, forward and cyclic references, duplicate ids), by temporary ids !A<n> !D<n> !K<n> with n from 0 to 10^30 or relative to the list length, by file names (missing, own file, other file); added members; self- and mutually-including files), CSV cell / row / column edits (unknown and mismatched selector kinds, ';' lists of unequal length, empty cells, huge offsets), CBOR edits on a generic decoded tree (handles and lengths changed, elements deleted / duplicated / swapped / retyped; lying length prefixes: the definite-length headers of the document are enumerated with their path class - chain of container kinds, record positions kept, list positions not - and one of them, chosen by index over all headers or over the headers of one class, announces the real length +-d, 0 .. 2^16 .. 2^31 .. 2^32 .. 2^63 .. u64::MAX, the real length x 2^k or an indefinite length, the rest of the file unchanged) and byte edits (truncate, flip, splice, insert). Strings put into ids, references, keys, values, file names and CSV cells also come from a hostile alphabet: a prefix the library tests for ('!', '!A', '_:', 'http', 'file://', '#', ';' ...) followed by 0-90 characters of 1-4 bytes in upper / lower / title case, digits and marks, optionally a number, optionally stretched beyond 120 / 256 / 1024 / 4096 bytes; in CSV also before and after the ';' of a list; and one mutation renames every identifier of the document set consistently to such a string + id + such a string (the documents still load). Or a string for Cursor / Type / SelectorKind / DataFormat::try_from, Offset and Cursor JSON, AnnotationBuilder::from_json_str: valid spellings edited, and long inputs dense in multi-byte characters (every free string of a JSON seed replaced, a leading member of up to 1600 characters, 0-3 bytes of shift) that are malformed by the JSON mutators, by a cut or a stray token at a character boundary; enumerated: every seed document made dense and cut at every character boundary, and with a leading string of 60 / 400 / 1500 three-byte characters shifted by 0, 1, 2 bytes (every byte offset inside it falls inside a character for two of the three shifts) cut, with a member missing or retyped. Or a raw fuzz input. Every case runs in a child process with a counting allocator. Oracle: no panic; the child survives (no stack overflow, no failed allocation); peak live bytes during the load <= 64 MiB + 4096 x input bytes; allocation calls <= 10^6 + 10^3 x input bytes; if the loader returns Ok: the forward references of the store are sound (every handle names a live item, annotation selectors point backwards), then full observation, the model-free C01-C03 consistency battery, to_json_string and five queries complete without panic and find the store consistent. Whatever goes wrong when a store returned by the CBOR reader is used (it validates nothing) is grouped under the signature prefix cbor-unvalidated|. Non-trivial = the mutated documents differ in meaning from their parents and every changed file still parses syntactically in its format (so the loader gets past syntax); for strings: not one of the valid spellings. Distinct = distinct case JSON.".into()
     }
     fn assumptions(&self) -> Vec<String> {
         vec![
@@ -2143,7 +2145,25 @@ impl Property for C19 {
             if (get("mutated-and-ok") as f64) < 0.15 * mutated.max(1) as f64 {
                 v.push(format!("only {} of {} mutated document sets still load Ok (< 15%)", get("mutated-and-ok"), mutated));
             }
-            for l in ["fmt:json", "fmt:csv", "fmt:cbor", "mut:json.tempid", "mut:json.include", "mut:csv.cell", "mut:cbor.integer", "outcome:err"] {
+            for l in [
+                "fmt:json",
+                "fmt:csv",
+                "fmt:cbor",
+                "mut:json.tempid",
+                "mut:json.include",
+                "mut:csv.cell",
+                "mut:cbor.integer",
+                "outcome:err",
+                "mut:cbor.length-prefix",
+                "headlen:2^31..2^32",
+                "headlen:2^63..u64::MAX",
+                "str:bang+multibyte-upper",
+                "str:bang+letter+digits",
+                "str:prefix+multibyte",
+                "str:multibyte-next-to-semicolon",
+                "str:renamed-consistently",
+                "parse:long+rejected+multibyte-across-byte-120",
+            ] {
                 if get(l) == 0 {
                     v.push(format!("label {} never occurred", l));
                 }
@@ -2252,6 +2272,29 @@ pub fn emit_corpus(dir: &Path, n: usize) -> Result<usize, String> {
             let bytes = if *target == "c19_cbor" { docs[0].1.clone() } else { container_join(&docs) };
             std::fs::write(dir.join(target).join(format!("seed-{:03}-{}", i, mode.name())), bytes).map_err(|e| e.to_string())?;
             written += 1;
+            if i < 9 {
+                // the same documents with long non-ASCII identifiers everywhere (they still load), one of them in
+                // the '!' + letter form of a temporary id: byte-level mutation does not invent multi-byte text
+                let mut docs = docs;
+                let fit = [0u8, 2, 4][i % 3];
+                let dense = Mutation::Rename {
+                    pre: HStr { pre: 0, body: vec![0, 17, 25, 2], num: 0, fit },
+                    post: HStr { pre: 0, body: vec![14, 26, 3], num: 0, fit: 0 },
+                    values: i % 2 == 0,
+                };
+                let bang = Mutation::JStr {
+                    file: 0,
+                    field: Field::IdOf((i % ID_LISTS.len()) as u8),
+                    nth: 0,
+                    val: StrChoice::Hostile(HStr { pre: 2, body: vec![[0u8, 2, 14, 26][i % 4], 17], num: (i % 3) as u8, fit: 0 }),
+                };
+                if apply(&mut docs, &dense) {
+                    apply(&mut docs, &bang);
+                    let bytes = if *target == "c19_cbor" { docs[0].1.clone() } else { container_join(&docs) };
+                    std::fs::write(dir.join(target).join(format!("seed-{:03}-{}-nonascii", i, mode.name())), bytes).map_err(|e| e.to_string())?;
+                    written += 1;
+                }
+            }
         }
     }
     Ok(written)
